@@ -309,6 +309,46 @@ func Gen(r *rand.Rand, o GenOpts) *Doc {
 	for k := r.Intn(6) - 3; k > 0; k-- {
 		d.Charges = append(d.Charges, genDocAdj())
 	}
+	// the same rate written twice with different spellings (21.0% / 21.00%, surcharge 5.2% / 5.20%):
+	// one group by value, whatever the number of decimals — copied from one row to another one
+	if len(d.Lines) >= 2 && r.Intn(5) == 0 {
+		respell := func(a *Amt) *Amt {
+			if a == nil {
+				return nil
+			}
+			x := *a
+			for k := 1 + r.Intn(2); k > 0 && x.E < 6; k-- {
+				x = Amt{x.V * 10, x.E + 1}
+			}
+			return &x
+		}
+		from := r.Intn(len(d.Lines))
+		to := (from + 1 + r.Intn(len(d.Lines)-1)) % len(d.Lines)
+		for _, cb := range d.Lines[from].Taxes {
+			if cb.Percent == nil {
+				continue
+			}
+			if cb.Surcharge == nil && r.Intn(2) == 0 {
+				s := pick(r, surChoices)
+				cb.Surcharge = &s
+				for i := range d.Lines[from].Taxes {
+					if d.Lines[from].Taxes[i].Cat == cb.Cat {
+						d.Lines[from].Taxes[i].Surcharge = &s
+					}
+				}
+			}
+			cp := cb
+			cp.Percent, cp.Surcharge = respell(cb.Percent), respell(cb.Surcharge)
+			var ts []Combo
+			for _, x := range d.Lines[to].Taxes {
+				if x.Cat != cp.Cat {
+					ts = append(ts, x)
+				}
+			}
+			d.Lines[to].Taxes = append(ts, cp)
+			break
+		}
+	}
 	if !o.NoRounding && r.Intn(25) == 0 {
 		x := genAmt(r, 2, int(c), 0.5)
 		if o.CurrencyOnly {
